@@ -1,0 +1,39 @@
+//go:build verif
+
+package desc
+
+// Contracts for govc (contract-based deductive verification, see /verif/DESIGN.md).
+// This file is compiled only with -tags verif and contains no executable code.
+
+//@ iface chord.Mapper.GetAttribute (m, name) returns (a, ok)
+//@   pure
+
+// what `info attr describe` reports (C15): the applied note is root + interval - same pitch class, the octave
+// offset making up the difference - spelled natural when possible and otherwise with the requested accidental
+//@ define validRoot(n) note.validName(n.Name) && note.validAcc(n.Accidental)
+//@ define isz(d) spec.intervalSize(d.Value, note.qual(d.Name))
+//@ define describes(x, root, sharp) x.Root == root && note.noteSemi(x.Applied) + 12 * x.OctaveDiff == note.noteSemi(root) + isz(x.Attribute.Degree) && 0 <= note.noteSemi(x.Applied) && note.noteSemi(x.Applied) < 12 && x.Semitone == isz(x.Attribute.Degree) && x.Applied.Accidental == ite(spec.isNaturalPC(note.noteSemi(x.Applied)), note.Natural, ite(sharp, note.Sharp, note.Flat))
+
+//@ func Attribute.Describe returns (r, err)
+//@   allocs AttributeInfo
+//@   requires a.mapper != nil && validRoot(root)
+//@   ensures err == nil ==> r != nil && fresh(r) && spec.validInterval(r.Attribute.Degree.Value, note.qual(r.Attribute.Degree.Name)) && describes(r, root, precedeSharp)
+
+// `info chord describe`: one such report per note of the chord
+//@ func Chord.Describe returns (r, err)
+//@   allocs ChordInfo, AttributeInfo, []*AttributeInfo, []chord.Attribute
+//@   requires c.mapper != nil && c.attr != nil && c.attr.mapper != nil && validRoot(root)
+//@   ensures err == nil ==> r != nil && fresh(r) && r.Root == root
+//@   ensures err == nil ==> forall(i, 0, len(r.Attributes), r.Attributes[i] != nil && describes(r.Attributes[i], root, precedeSharp))
+//@   loop 0 allocs AttributeInfo
+//@   loop 0 modifies attrs
+//@   loop 0 invariant 0 - 1 <= rangeindex && rangeindex < len(cdAttrs) && len(attrs) == len(cdAttrs)
+//@   loop 0 invariant forall(i, 0, rangeindex + 1, attrs[i] != nil && fresh(attrs[i]) && describes(attrs[i], root, precedeSharp))
+//@   loop 0 decreases len(cdAttrs) - rangeindex
+
+// `info key describe` (C17): the scale and its diatonic chords
+//@ func Key.Describe returns (r)
+//@   allocs op.DiatonicChorderImpl
+//@   requires scale != nil
+//@   ensures r.Scale == scale
+//@   ensures forall(i, 0, 7, r.Diatonic.Triads[i].Note == scale.Notes[i] && r.Diatonic.Sevenths[i].Note == scale.Notes[i])
